@@ -9,6 +9,7 @@ pub mod gad;
 pub mod sch;
 pub mod c12b;
 pub mod c15;
+pub mod c17b;
 pub mod c20;
 
 use pzv_common::driver::{Ctx, install_panic_hook, read_replay};
@@ -25,6 +26,7 @@ fn main() {
         let ctx = Ctx::from_args(&prop, &[]);
         let code = match prop.as_str() {
             "C12" => c12b::replay(&ctx, &sub, &case),
+            "C17" => c17b::replay(&ctx, &sub, &case),
             "C13" => c13::replay(&ctx, &sub, &case),
             "C14" => c14::replay(&ctx, &sub, &case),
             "C15" => c15::replay(&ctx, &sub, &case),
@@ -42,6 +44,10 @@ fn main() {
         "C12" => {
             c12b::run_all(&ctx);
             ctx.finish(c12b::RULE, &["blind rotation, circuit bootstrapping and the key encryption / preparation routines are reached through fhe_uint_prepare and TestContext only; their own size queries are not audited separately"], &[("multi_thread", 20), ("fhe_uint_prepare", 4)])
+        }
+        "C17" => {
+            c17b::run_all(&ctx);
+            ctx.finish(c17b::RULE, &["value oracles and clean panics are ignored here (C14 / C15 / C12 own them)"], &[])
         }
         "C13" => {
             c13::run(&ctx);
